@@ -347,4 +347,229 @@ theorem run_encode (v : Variant) (as4 : Bool) (u : Upd) (r w : List (Fam × Pfx)
   rw [decode_encode v u extra hwf (hc.imp id (fun h => h.1))]
   exact events_spec v as4 u r w hr hw (hc.imp id (fun h => h.2))
 
+/-! ### BMP Route Monitoring, Dumping phase -/
+
+theorem isEorRc_canon (u : Upd) : isEorRc u.canon = isEorRc u := by
+  simp [isEorRc, Upd.canon]
+
+theorem runBmpDumping_encode (v : Variant) (as4 : Bool) (u : Upd) (r w : List (Fam × Pfx))
+    (extra : Bytes) (hwf : u.wfRfc) (hr : ReachIs u.attrs r) (hw : UnreachIs u.attrs w)
+    (hc : v.maskPad = true ∨ (u.clean ∧ allClean r ∧ allClean w))
+    (he : v.eorDrops = false ∨ isEorRc u = false ∨ specEvents as4 u r w = []) :
+    runBmpDumping v as4 (encode u ++ extra) = some (specEvents as4 u r w) := by
+  unfold runBmpDumping
+  rw [decode_encode v u extra hwf (hc.imp id (fun h => h.1))]
+  have hev := events_spec v as4 u r w hr hw (hc.imp id (fun h => h.2))
+  simp only [isEorRc_canon]
+  rcases he with he | he | he
+  · simp [he, hev]
+  · simp [he, hev]
+  · rw [hev, he]; simp
+
+/-! ### `encode` produces octets -/
+
+/-- Every number in the structured UPDATE is an octet. -/
+structure Upd.octets (u : Upd) : Prop where
+  wd : ∀ p ∈ u.withdrawn, p.len < 256 ∧ ∀ b ∈ p.addr, b < 256
+  nl : ∀ p ∈ u.nlri, p.len < 256 ∧ ∀ b ∈ p.addr, b < 256
+  attr : ∀ a ∈ u.attrs, a.flags < 256 ∧ a.code < 256 ∧ ∀ b ∈ a.value, b < 256
+
+theorem u16_octets (n : Nat) (h : n < 65536) : ∀ b ∈ u16 n, b < 256 := by
+  intro b hb
+  simp only [u16, List.mem_cons, List.not_mem_nil, or_false] at hb
+  rcases hb with rfl | rfl <;> omega
+
+theorem encPfxs_octets : ∀ (ps : List Pfx),
+    (∀ p ∈ ps, p.len < 256 ∧ ∀ b ∈ p.addr, b < 256) → ∀ b ∈ encPfxs ps, b < 256
+  | [], _, b, hb => by simp [encPfxs] at hb
+  | p :: ps, h, b, hb => by
+    simp only [encPfxs, encPfx, List.cons_append, List.mem_cons, List.mem_append] at hb
+    have hp := h p List.mem_cons_self
+    rcases hb with rfl | hb | hb
+    · exact hp.1
+    · exact hp.2 b hb
+    · exact encPfxs_octets ps (fun q hq => h q (List.mem_cons_of_mem _ hq)) b hb
+
+theorem encAttrs_octets : ∀ (as : List Attr), (∀ a ∈ as, a.wf) →
+    (∀ a ∈ as, a.flags < 256 ∧ a.code < 256 ∧ ∀ b ∈ a.value, b < 256) → ∀ b ∈ encAttrs as, b < 256
+  | [], _, _, b, hb => by simp [encAttrs] at hb
+  | a :: as, hwf, h, b, hb => by
+    simp only [encAttrs, List.mem_append] at hb
+    have ha := h a List.mem_cons_self
+    have hw := hwf a List.mem_cons_self
+    rcases hb with hb | hb
+    · unfold Attr.wf at hw
+      unfold encAttr at hb
+      by_cases he : extBit a.flags = true
+      · simp only [he, if_true] at hw hb
+        simp only [List.mem_cons, List.mem_append] at hb
+        rcases hb with rfl | rfl | hb | hb
+        · exact ha.1
+        · exact ha.2.1
+        · exact u16_octets _ hw b hb
+        · exact ha.2.2 b hb
+      · simp only [he] at hw hb
+        simp only [Bool.false_eq_true, if_false, List.mem_cons] at hw hb
+        rcases hb with rfl | rfl | rfl | hb
+        · exact ha.1
+        · exact ha.2.1
+        · exact hw
+        · exact ha.2.2 b hb
+    · exact encAttrs_octets as (fun q hq => hwf q (List.mem_cons_of_mem _ hq))
+        (fun q hq => h q (List.mem_cons_of_mem _ hq)) b hb
+
+/-- The encoding of a well-formed UPDATE made of octets is an octet string: the length
+    fields do not overflow (this is where the `< 65536` / `< 256` bounds of `wfRfc` matter). -/
+theorem encode_octets (u : Upd) (hwf : u.wfRfc) (ho : u.octets) : ∀ b ∈ encode u, b < 256 := by
+  intro b hb
+  simp only [encode, encBody, marker, List.mem_append, List.mem_cons, List.mem_replicate] at hb
+  rcases hb with ⟨_, rfl⟩ | hb | rfl | hb | hb | hb | hb | hb
+  · omega
+  · exact u16_octets _ hwf.total b (by simpa [encBody] using hb)
+  · omega
+  · exact u16_octets _ hwf.wlen b hb
+  · exact encPfxs_octets _ ho.wd b hb
+  · exact u16_octets _ hwf.alen b hb
+  · exact encAttrs_octets _ hwf.attr ho.attr b hb
+  · exact encPfxs_octets _ ho.nl b hb
+
+/-! ### The code as written rejects every UPDATE with a dirty prefix -/
+
+theorem decPfxsF_dirty (mb : Nat) :
+    ∀ (ps : List Pfx) (fuel : Nat), (∀ p ∈ ps, p.wfRfc mb) → (∃ p ∈ ps, ¬ p.clean) →
+      (encPfxs ps).length ≤ fuel → decPfxsF asWritten mb fuel (encPfxs ps) = none
+  | [], _, _, hd, _ => by obtain ⟨p, hp, _⟩ := hd; cases hp
+  | p :: ps, fuel, hwf, hd, hf => by
+    have hp := hwf p (List.mem_cons_self)
+    have hwf' : ∀ q ∈ ps, q.wfRfc mb := fun q hq => hwf q (List.mem_cons_of_mem _ hq)
+    have henc : encPfxs (p :: ps) = p.len :: (p.addr ++ encPfxs ps) := by
+      simp [encPfxs, encPfx]
+    rw [henc] at hf ⊢
+    cases fuel with
+    | zero => simp at hf
+    | succ f =>
+      have hf' : (encPfxs ps).length ≤ f := by
+        simp only [List.length_cons, List.length_append] at hf; omega
+      have hdec := decPfx_enc asWritten mb p (encPfxs ps) hp
+      simp only [encPfx, List.cons_append] at hdec
+      by_cases hc : p.clean
+      · have hrest : ∃ q ∈ ps, ¬ q.clean := by
+          obtain ⟨q, hq, hqd⟩ := hd
+          rcases List.mem_cons.mp hq with rfl | hq'
+          · exact absurd hc hqd
+          · exact ⟨q, hq', hqd⟩
+        unfold Pfx.clean at hc
+        simp only [hc, Bool.true_or, if_true] at hdec
+        simp only [decPfxsF, hdec, decPfxsF_dirty mb ps f hwf' hrest hf']
+      · unfold Pfx.clean at hc
+        have hm : asWritten.maskPad = false := rfl
+        simp only [hc, hm, Bool.or_false, Bool.false_eq_true, if_false] at hdec
+        simp only [decPfxsF, hdec]
+
+theorem decPfxs_dirty (mb : Nat) (ps : List Pfx) (hwf : ∀ p ∈ ps, p.wfRfc mb)
+    (hd : ∃ p ∈ ps, ¬ p.clean) : decPfxs asWritten mb (encPfxs ps) = none :=
+  decPfxsF_dirty mb ps _ hwf hd (Nat.le_refl _)
+
+/-- `decodeBody` on an encoded body, with the two prefix fields left to `decPfxs`. -/
+theorem decodeBody_enc_gen (v : Variant) (u : Upd) (extra : Bytes) (hwf : u.wfRfc) :
+    decodeBody v (19 + (encBody u).length) (encBody u ++ extra) =
+      match decPfxs v 4 (encPfxs u.withdrawn) with
+      | none => none
+      | some wd =>
+        match decPfxs v 4 (encPfxs u.nlri) with
+        | none => none
+        | some nl => some ⟨wd, u.attrs, nl⟩ := by
+  have hb : encBody u ++ extra =
+      ((encPfxs u.withdrawn).length / 256) :: ((encPfxs u.withdrawn).length % 256) ::
+        (encPfxs u.withdrawn ++
+          (((encAttrs u.attrs).length / 256) :: ((encAttrs u.attrs).length % 256) ::
+            (encAttrs u.attrs ++ (encPfxs u.nlri ++ extra)))) := by
+    simp [encBody, u16]
+  have ha := decAttrs_enc u.attrs hwf.attr
+  have hany : u.attrs.any (fun a => isMp a && decide (a.value.length < 3)) = false := by
+    rw [List.any_eq_false]
+    intro a hmem hh
+    simp only [Bool.and_eq_true, decide_eq_true_eq] at hh
+    have := hwf.mp a hmem hh.1
+    omega
+  rw [hb, encBody_length]
+  simp only [decodeBody, u16_val]
+  have h1 : ¬ (encPfxs u.withdrawn ++
+          (((encAttrs u.attrs).length / 256) :: ((encAttrs u.attrs).length % 256) ::
+            (encAttrs u.attrs ++ (encPfxs u.nlri ++ extra)))).length
+        < (encPfxs u.withdrawn).length := by
+    rw [List.length_append]; omega
+  rw [if_neg h1, List.take_left, List.drop_left]
+  cases decPfxs v 4 (encPfxs u.withdrawn) with
+  | none => rfl
+  | some wd =>
+    simp only [u16_val]
+    have h2 : ¬ (encAttrs u.attrs ++ (encPfxs u.nlri ++ extra)).length < (encAttrs u.attrs).length := by
+      rw [List.length_append]; omega
+    rw [if_neg h2, List.take_left, List.drop_left, ha]
+    simp only [hany]
+    have e : 19 + (2 + (encPfxs u.withdrawn).length + 2 + (encAttrs u.attrs).length +
+          (encPfxs u.nlri).length) - 19 -
+        (2 + (encPfxs u.withdrawn).length + 2 + (encAttrs u.attrs).length) = (encPfxs u.nlri).length := by
+      omega
+    rw [e]
+    have h3 : ¬ (2 + (encPfxs u.withdrawn).length + 2 + (encAttrs u.attrs).length >
+        19 + (2 + (encPfxs u.withdrawn).length + 2 + (encAttrs u.attrs).length +
+          (encPfxs u.nlri).length) - 19) := by omega
+    have h4 : ¬ (encPfxs u.nlri ++ extra).length < (encPfxs u.nlri).length := by
+      rw [List.length_append]; omega
+    simp only [Bool.false_eq_true, if_false]
+    rw [if_neg h3, if_neg h4, List.take_left]
+    cases decPfxs v 4 (encPfxs u.nlri) <;> rfl
+
+theorem decode_encode_gen (v : Variant) (u : Upd) (extra : Bytes) (hwf : u.wfRfc) :
+    decode v (encode u ++ extra) =
+      match decPfxs v 4 (encPfxs u.withdrawn) with
+      | none => none
+      | some wd =>
+        match decPfxs v 4 (encPfxs u.nlri) with
+        | none => none
+        | some nl => some ⟨wd, u.attrs, nl⟩ := by
+  have hb := decodeBody_enc_gen v u extra hwf
+  have ht : (encode u ++ extra).take 16 = marker := by
+    unfold encode
+    rw [List.append_assoc]
+    exact List.take_left' (by simp [marker])
+  have hd : (encode u ++ extra).drop 16 =
+      ((19 + (encBody u).length) / 256) :: ((19 + (encBody u).length) % 256) :: 2 ::
+        (encBody u ++ extra) := by
+    unfold encode
+    rw [List.append_assoc, List.drop_left' (by simp [marker])]
+    simp [u16]
+  unfold decode
+  rw [ht, hd]
+  simp only [ne_eq, not_true_eq_false, if_false, u16_val]
+  rw [if_neg (by omega)]
+  exact hb
+
+/-- Code as written: a dirty pad bit in a conventional field makes `from_octets` fail. -/
+theorem decode_dirty (u : Upd) (extra : Bytes) (hwf : u.wfRfc) (hd : ¬ u.clean) :
+    decode asWritten (encode u ++ extra) = none := by
+  rw [decode_encode_gen asWritten u extra hwf]
+  by_cases hw : ∀ p ∈ u.withdrawn, p.clean
+  · have hn : ∃ p ∈ u.nlri, ¬ p.clean := by
+      apply Classical.byContradiction
+      intro hcon
+      apply hd
+      refine ⟨hw, fun p hp => ?_⟩
+      apply Classical.byContradiction
+      intro hpc
+      exact hcon ⟨p, hp, hpc⟩
+    rw [decPfxs_dirty 4 u.nlri hwf.nl hn]
+    cases decPfxs asWritten 4 (encPfxs u.withdrawn) <;> rfl
+  · have hw' : ∃ p ∈ u.withdrawn, ¬ p.clean := by
+      apply Classical.byContradiction
+      intro hcon
+      apply hw
+      intro p hp
+      apply Classical.byContradiction
+      intro hpc
+      exact hcon ⟨p, hp, hpc⟩
+    rw [decPfxs_dirty 4 u.withdrawn hwf.wd hw']
+
 end Rotonda.Codec
